@@ -70,7 +70,7 @@ func verifC15NativeCheck(src, pat string, viaConfig bool) {
 	if viaConfig {
 		must(os.WriteFile(filepath.Join(tmp, "r", ".github", "actionlint.yaml"), []byte("paths:\n  .github/workflows/*.yml:\n    ignore:\n      - '"+pat+"'\n"), 0o644))
 	} else {
-		opts.IgnorePatterns = []string{pat}
+		opts.IgnorePatterns = []string{"(?i)NO SUCH DIAGNOSTIC", pat}
 	}
 	l, err := NewLinter(io.Discard, opts)
 	must(err)
